@@ -289,6 +289,22 @@ def judge_result_object(run, case, res, what):
             ok &= run.check(off in (0, 1) and "timestamps" in A and core.bits_equal(np.asarray(A["timestamps"], dtype=float), v["t"][off:]),
                             "returned timestamps are those of the stored estimate", case,
                             "%s: timestamps array does not match the stored estimate" % what, key="session:timestamps")
+    names = list(res.trajectories)
+    if len(names) == 2 and "distances" in A and "distances_from_start" in A:
+        vr, ve = gen.read_views(res.trajectories[names[0]]), gen.read_views(res.trajectories[names[1]])
+        off = len(ve["p"]) - n
+        if off in (0, 1) and len(vr["p"]) == len(ve["p"]):
+            mag = 1.0 + float(np.max(np.abs(vr["p"]))) + float(np.max(np.abs(ve["p"])))
+            tol = 1e-9 * mag * max(1, n)
+            dref, dest = rm.cumdist(vr["p"])[off:], rm.cumdist(ve["p"])[off:]
+            ok &= run.check(bool(np.all(np.abs(np.asarray(A["distances_from_start"], dtype=float) - dref) <= tol)) and
+                            bool(np.all(np.abs(np.asarray(A["distances"], dtype=float) - dest) <= tol)),
+                            "returned distance arrays follow from the stored trajectories", case,
+                            "%s: distances / distances_from_start are not the accumulated distances along the "
+                            "stored (processed) trajectories (max deviation %g / %g)" %
+                            (what, float(np.max(np.abs(np.asarray(A["distances"], dtype=float) - dest))),
+                             float(np.max(np.abs(np.asarray(A["distances_from_start"], dtype=float) - dref)))),
+                            key="session:distances")
     return ok
 
 
@@ -316,17 +332,31 @@ def k_session(run, case):
     t_ref = gen.make_evo(ref, "se3" if rng.random() < .6 else "xyzq", stamped, flavour=gen.rand_flavour(rng))
     t_est = gen.make_evo(est, "se3" if rng.random() < .6 else "xyzq", stamped, flavour=gen.rand_flavour(rng))
     gen.age(rng, t_ref, p=.7), gen.age(rng, t_est, p=.7)
+    if rng.random() < .5:
+        # objects that were already looked at (printed, plotted, evaluated once)
+        t_est.distances, t_est.path_length, t_ref.distances, str(t_est)
     results, history = [], []
     n_eval = int(rng.integers(2, 5))
     for j in range(n_eval):
         rel = ["translation_part", "rotation_angle_deg", "full_transformation", "point_distance", "rotation_part"][rng.integers(5)]
         plane = [None, "xy", "xz", "yz"][rng.integers(4)] if j > 0 else None
         kw = dict(delta=float(rng.integers(1, max(2, n // 3))), delta_unit=Unit.frames, all_pairs=bool(rng.random() < .3),
-                  align=bool(rng.random() < .25), correct_scale=bool(rng.random() < .2), support_loop=True,
+                  align=bool(rng.random() < .4), correct_scale=bool(rng.random() < .4), support_loop=True,
                   project_to_plane=Plane(plane) if plane else None)
         history.append("%s%s%s" % (rel, " +project " + plane if plane else "", " +align" if kw["align"] or kw["correct_scale"] else ""))
+        tool = "rpe" if rng.random() < .6 else "ape"
+        history[-1] = tool + ":" + history[-1]
         with core.quiet():
-            out = contracts.outcome_of(main_rpe.rpe, t_ref, t_est, metrics.PoseRelation[rel], **kw)
+            if tool == "rpe":
+                out = contracts.outcome_of(main_rpe.rpe, t_ref, t_est, metrics.PoseRelation[rel], **kw)
+            else:
+                # ape() works in place on what it is given: the user hands over deep copies of
+                # the (already used) objects and keeps the originals
+                import copy
+                from evo import main_ape
+                kwa = {k: v for k, v in kw.items() if k in ("align", "correct_scale", "project_to_plane")}
+                out = contracts.outcome_of(main_ape.ape, copy.deepcopy(t_ref), copy.deepcopy(t_est),
+                                           metrics.PoseRelation[rel], **kwa)
         if out[0] != "ok":
             run.hit("session step refused (%s)" % type(out[1]).__name__)
             continue
